@@ -346,6 +346,12 @@ func (e *Evaluator) evalForStmt(node *ast.ForStmt, env *object.Env) object.Objec
 			return post
 		}
 
+		// an assignment as the post statement has
+		// already updated the variable it names
+		if _, isAssign := node.Post.(*ast.AssignStmt); isAssign {
+			continue
+		}
+
 		// the value of the post statement becomes the loop variable
 		initStmt, hasLoopVar := node.Init.(*ast.AssignStmt)
 
